@@ -673,6 +673,43 @@ func propRelay(c RelayCase) (o pbt.Outcome) {
 			return
 		}
 	}
+	// an empty datagram is a datagram: it must be relayed in both directions.
+	// Missing replies above are tolerated as kernel loss, so this is probed
+	// separately with retries: three attempts cannot all be lost on loopback.
+	{
+		h0 := header(0)
+		e0.mu.Lock()
+		before := len(e0.got)
+		e0.mu.Unlock()
+		answered := false
+		for attempt := 0; attempt < 3 && !answered; attempt++ {
+			if _, err := app.WriteToUDP(append([]byte(nil), h0...), relayAddr); err != nil {
+				break
+			}
+			app.SetReadDeadline(time.Now().Add(700 * time.Millisecond))
+			for {
+				n, _, err := app.ReadFromUDP(buf)
+				if err != nil {
+					break
+				}
+				if sink, hl := namedSink(buf[:n]); sink == 0 && n == hl {
+					answered = true
+					break
+				}
+			}
+		}
+		e0.mu.Lock()
+		reached := len(e0.got) - before
+		e0.mu.Unlock()
+		if !answered && reached >= 3 {
+			o.Failf("empty-reply", "three empty datagrams were relayed to destination 0 (it received and echoed %d), none of the empty replies came back through the association", reached)
+			return
+		}
+		if reached == 0 && !answered {
+			o.Failf("empty-datagram", "three empty datagrams addressed to destination 0 were sent through the association, none arrived")
+			return
+		}
+	}
 	if len(replies) < len(sents) && o.Inconclusive == "" {
 		o.Inconclusive = fmt.Sprintf("%d of %d replies arrived", len(replies), len(sents))
 	}
